@@ -27,6 +27,29 @@ var hardRunes = []rune{'"', '\'', '`', '\\', '/', 0, 1, 0x1f, 0x7f, 0x80, 0xff, 
 
 func genHardString(t *rapid.T, label string) string {
 	n := rapid.IntRange(0, 12).Draw(t, label+"Len")
+	if uni(t, 10, label+"Long") == 0 {
+		// a long, mostly plain string with a few hard characters, some near the end
+		// (fixed-size scratch buffers, chunked copies)
+		total := bigSize(t, label+"LongLen")
+		var sb strings.Builder
+		for sb.Len() < total {
+			sb.WriteByte("abcdefghij"[sb.Len()%10])
+		}
+		s := sb.String()
+		for k, m := 0, 1+uni(t, 3, label+"Marks"); k < m; k++ {
+			pos := len(s) - uni(t, 4, label+"FromEnd")
+			if uni(t, 2, label+"Anywhere") == 0 {
+				pos = rapid.IntRange(0, len(s)).Draw(t, label+"Pos")
+			}
+			if pos < 0 {
+				pos = 0
+			}
+			s = s[:pos] + string(hardRunes[uni(t, 6, label+"Mark")]) + s[pos:]
+		}
+		if utf8.ValidString(s) {
+			return s
+		}
+	}
 	var sb strings.Builder
 	for i := 0; i < n; i++ {
 		if rapid.IntRange(0, 4).Draw(t, label+"Any") == 0 {
